@@ -239,6 +239,46 @@ func (x *Exec) bindLets(con *Contract, env *SpecEnv, key string) {
 
 func (x *Exec) applyContract(fr *Frame, callee *ssa.Function, con *Contract, args []Value, pos token.Pos, bc Term, st State, site string) []Value {
 	key := fnKey(callee)
+	// copy-in / copy-out: a pointer to a scalar field, element, package variable or non-escaping local passed where the callee's contract speaks
+	// about a scalar cell (Cell_T[p]).  The current field value is copied into a fresh cell, the contract is
+	// applied to that cell, and the cell's final value is written back to the field.  Sound because the callee
+	// reaches the location only through this pointer (its own frame obligation covers Cell_T and nothing in
+	// the field's component).
+	type cio struct {
+		addr *Addr
+		cell *Addr
+	}
+	var cios []cio
+	for i, p := range callee.Params {
+		if i >= len(args) || args[i].Kind != VAddr || args[i].A.Kind == ACell {
+			continue
+		}
+		pt, ok := p.Type().Underlying().(*types.Pointer)
+		if !ok {
+			continue
+		}
+		if _, _, isStruct := x.structOf(pt.Elem()); isStruct {
+			continue
+		}
+		cc := cellComp(pt.Elem())
+		if _, ok := x.E.CompSorts[cc]; !ok {
+			continue
+		}
+		ref := x.freshRef(st, "cin")
+		cell := &Addr{Kind: ACell, Comp: cc, Ref: ref, Typ: pt.Elem()}
+		x.storeAddr(st, cell, x.loadAddr(st, args[i].A))
+		cios = append(cios, cio{args[i].A, cell})
+		nargs := append([]Value{}, args...)
+		nargs[i] = Value{Kind: VAddr, A: cell, Typ: args[i].Typ}
+		args = nargs
+	}
+	if len(cios) > 0 {
+		defer func() {
+			for _, c := range cios {
+				x.storeAddr(st, c.addr, x.loadAddr(st, c.cell))
+			}
+		}()
+	}
 	pre := st.clone()
 	// requires
 	vars := x.contractVars(callee, args, nil, site)
